@@ -583,7 +583,7 @@ func (w *c40World) drawCrit(from *c40Log) c40Crit {
 			c.addrs = append(others(2, from.addr), from.addr)
 		}
 		npos := rapid.IntRange(0, len(from.topics)).Draw(rt, "npos")
-		if rapid.IntRange(0, 11).Draw(rt, "tooLong") == 0 && npos < 4 {
+		if rapid.IntRange(0, 11).Draw(rt, "tooLong") == 0 && len(from.topics) < 4 {
 			npos = len(from.topics) + 1 // more positions than the log has topics: must not match it
 		}
 		for i := 0; i < npos; i++ {
@@ -639,8 +639,12 @@ func (w *c40World) drawQuery(chains [][]*c40Blk, idx *common.Range[uint64]) *c40
 	q := &c40Query{}
 	latest := rpc.LatestBlockNumber.Int64()
 	kind := rapid.IntRange(0, 11).Draw(rt, "rangeKind")
-	if kind == 6 && (idx == nil || idx.IsEmpty() || idx.First() == 0) {
+	tailKnown := idx != nil && !idx.IsEmpty() && idx.First() > 0
+	if kind == 6 && !tailKnown {
 		kind = 1
+	}
+	if tailKnown && len(chains) == 1 && rapid.IntRange(0, 2).Draw(rt, "aimAtTail") == 0 {
+		kind = 6
 	}
 	if kind == 7 && len(chains) > 1 {
 		kind = 2
@@ -748,7 +752,41 @@ func (w *c40World) knownTailRace(err error, moment string) bool {
 	if w.history == 0 || w.disabled || strings.Contains(moment, "quiescent") {
 		return false
 	}
-	return strings.Contains(err.Error(), "failed to retrieve log value pointer")
+	e := err.Error()
+	return strings.Contains(e, "not found") && (strings.Contains(e, "failed to retrieve") || strings.Contains(e, "failed to process log index epoch"))
+}
+
+// c40ClassTailPartial: when tail unindexing removes the epoch in which the block that the
+// head renderer is still working on begins (history limit shorter than the indexer's lag),
+// filterMapsRange.blocks becomes the empty range [B+1,B+1); the next head write calls
+// blocks.SetAfterLast(B), which lowers blocks.first to B (common.Range.SetAfterLast), so
+// block B is reported as fully indexed although its first log values lie in the removed
+// epoch, and indexed searches silently miss those logs. Signature tolerated only if listed:
+// history limit set, nothing surplus or reordered, every missing log in one single block which
+// is the first indexed block (or already below it).
+const c40ClassTailPartial = "first-indexed-block-partially-unindexed"
+
+func (w *c40World) knownTailPartial(q *c40Query, got []*types.Log, want []c40Exp) bool {
+	if !vs.Known("TestVerifC40Queries", c40ClassTailPartial) || w.history == 0 || w.disabled || q.byHash || len(got) >= len(want) {
+		return false
+	}
+	// got must be want minus a run of logs of one block
+	i := 0
+	for i < len(got) && got[i].BlockHash == want[i].b.hash && got[i].Index == want[i].l.idx {
+		i++
+	}
+	miss := len(want) - len(got)
+	blk := want[i].b
+	for k := i; k < i+miss; k++ {
+		if want[k].b != blk {
+			return false
+		}
+	}
+	if c40Diff(got[i:], want[i+miss:]) != "" {
+		return false
+	}
+	idx, ok := w.indexed()
+	return ok && !idx.IsEmpty() && blk.num <= idx.First() && idx.First() > 0
 }
 
 // judge compares an answer against the candidate chain views (one unless the head
@@ -773,6 +811,11 @@ func (w *c40World) judge(q *c40Query, ans c40Answer, cands [][]*c40Blk, moment s
 		if d == "" {
 			w.tracef("query %s at %q: %d logs, ok", q, moment, len(want))
 			return want
+		}
+		if w.knownTailPartial(q, ans.logs, want) {
+			w.tracef("query %s at %q: excluded (known finding %s): %s", q, moment, c40ClassTailPartial, d)
+			w.excluded = true
+			return nil
 		}
 		diffs = append(diffs, fmt.Sprintf("vs chain view #%d (head %d/%x): %s", i, len(cands[i])-1, cands[i][len(cands[i])-1].hash[:6], d))
 	}
@@ -925,7 +968,7 @@ func (w *c40World) queries(st *vs.S, n int, moment string) {
 	for i := 0; i < n; i++ {
 		var idx *common.Range[uint64]
 		withheld := w.release != nil
-		lookBefore := rapid.IntRange(0, 2).Draw(w.rt, "lookBefore") == 0
+		lookBefore := rapid.Bool().Draw(w.rt, "lookBefore")
 		if lookBefore {
 			if r, ok := w.indexed(); ok {
 				idx = &r
@@ -1054,7 +1097,7 @@ func c40Scenario(t *testing.T, rt *rapid.T, st *vs.S) {
 			return uint64(n + rapid.IntRange(0, 50).Draw(rt, "history"))
 		}
 	}
-	w.start(drawHistory(), rapid.IntRange(0, 11).Draw(rt, "disabled") == 0)
+	w.start(drawHistory(), rapid.IntRange(0, 19).Draw(rt, "disabled") == 0)
 	if rapid.Bool().Draw(rt, "queryBeforeIndexed") {
 		w.queries(st, rapid.IntRange(1, 2).Draw(rt, "nq"), "just-started")
 	}
@@ -1131,7 +1174,7 @@ func c40Scenario(t *testing.T, rt *rapid.T, st *vs.S) {
 				w.commit(next, op)
 			}
 			w.lastOp = "restart+" + w.lastOp
-			w.start(drawHistory(), rapid.IntRange(0, 7).Draw(rt, "disabled") == 0)
+			w.start(drawHistory(), rapid.IntRange(0, 11).Draw(rt, "disabled") == 0)
 			if rapid.Bool().Draw(rt, "waitAfterStart") {
 				w.waitIdle()
 				w.queries(st, nq, "restarted-quiescent")
